@@ -113,37 +113,39 @@ type task struct {
 	steps   uint64
 	opSteps uint64
 	prio    int
+	blocked bool // spinning on a library lock (set by yieldBlocked, cleared when the lock is acquired)
 	b       baton
 }
 
 type Sim struct {
-	cfg       Config
-	tape      *Tape
-	tasks     []*task
-	cur       int
-	live      int
-	steps     uint64
-	switches  uint64
-	midSw     uint64
-	countdown uint64
-	atomic    int32
-	inHook    bool // an invariant hook is running: yield points reached from it are ignored
-	trace     []Switch
-	hash      uint64
-	aborted   bool
-	budgetHit bool
-	deadlock  bool
-	stalled   bool
-	cps       []uint64
-	nextCP    int
-	lowPrio   int
-	mapPerms  uint64
-	mapRanges uint64
-	lockSpins uint64
-	atomics   uint64
-	yieldCnt  uint64
-	mainB     baton
-	wg        sync.WaitGroup
+	cfg           Config
+	tape          *Tape
+	tasks         []*task
+	cur           int
+	live          int
+	steps         uint64
+	switches      uint64
+	midSw         uint64
+	countdown     uint64
+	atomic        int32
+	inHook        bool // an invariant hook is running: yield points reached from it are ignored
+	trace         []Switch
+	hash          uint64
+	aborted       bool
+	budgetHit     bool
+	deadlock      bool
+	stalled       bool
+	cps           []uint64
+	nextCP        int
+	lowPrio       int
+	mapPerms      uint64
+	mapRanges     uint64
+	lockSpins     uint64
+	atomics       uint64
+	yieldCnt      uint64
+	blockedRounds int
+	mainB         baton
+	wg            sync.WaitGroup
 }
 
 var sim *Sim
@@ -291,11 +293,26 @@ func (s *Sim) newGap() {
 //
 //go:norace
 func (s *Sim) pick(excludeCur bool) int {
+	// tasks spinning on a library lock are passed over while any other task
+	// can run (otherwise two blocked high-priority tasks can hand the baton to
+	// each other forever while the lock holder starves)
+	n := s.pickFrom(excludeCur, false)
+	if n < 0 {
+		n = s.pickFrom(excludeCur, true)
+	}
+	return n
+}
+
+//go:norace
+func (s *Sim) pickFrom(excludeCur, allowBlocked bool) int {
 	cur := s.tasks[s.cur]
+	ok := func(t *task) bool {
+		return t.state == stRunnable && (allowBlocked || !t.blocked)
+	}
 	if s.cfg.Policy.Kind == PPCT {
 		best := -1
 		for _, t := range s.tasks {
-			if t.state != stRunnable || (excludeCur && t.id == s.cur) {
+			if !ok(t) || (excludeCur && t.id == s.cur) {
 				continue
 			}
 			if best < 0 || t.prio > s.tasks[best].prio {
@@ -306,12 +323,12 @@ func (s *Sim) pick(excludeCur bool) int {
 	}
 	var cands [64]int
 	nc := 0
-	if !excludeCur && cur.state == stRunnable {
+	if !excludeCur && ok(cur) {
 		cands[nc] = cur.id
 		nc++
 	}
 	for _, t := range s.tasks {
-		if t.id != s.cur && t.state == stRunnable && nc < len(cands) {
+		if t.id != s.cur && ok(t) && nc < len(cands) {
 			cands[nc] = t.id
 			nc++
 		}
@@ -541,8 +558,21 @@ func TaskSteps() uint64 {
 // TryRLock) method value. A blocked task yields to another runnable task
 // instead of blocking the only running goroutine.
 func Lock(try func() bool) {
+	spun := false
 	for !try() {
+		spun = true
 		yieldBlocked()
+	}
+	if spun {
+		unblock()
+	}
+}
+
+//go:norace
+func unblock() {
+	if s := sim; s != nil {
+		s.tasks[s.cur].blocked = false
+		s.blockedRounds = 0
 	}
 }
 
@@ -558,6 +588,7 @@ func yieldBlocked() {
 	t.steps++
 	t.opSteps++
 	s.lockSpins++
+	t.blocked = true
 	if s.aborted {
 		panic(&Abort{"run aborted", 0})
 	}
@@ -566,7 +597,28 @@ func yieldBlocked() {
 		s.budgetHit = true
 		panic(&Abort{"step budget exhausted while waiting for a lock", 0})
 	}
-	next := s.pick(true)
+	next := s.pickFrom(true, false)
+	if next < 0 {
+		// every other runnable task is itself spinning on a lock
+		next = s.pickFrom(true, true)
+		s.blockedRounds++
+		if next >= 0 && s.blockedRounds > 8*len(s.tasks)+8 {
+			next = -1
+			for _, o := range s.tasks {
+				if o.state == stStalled {
+					next = -2
+				}
+			}
+			if next == -1 {
+				s.aborted = true
+				s.deadlock = true
+				panic(&Abort{"deadlock: every runnable task is blocked on a library lock", 0})
+			}
+			next = -1
+		}
+	} else {
+		s.blockedRounds = 0
+	}
 	if next < 0 {
 		// nobody else can run: release a stalled victim if there is one
 		for _, o := range s.tasks {
